@@ -56,6 +56,10 @@ fn main() {
         "C09" => props::sim::c09(&opts),
         "C10" => props::sim::c10(&opts),
         "C11" => props::c11::run(&opts),
+        "C12" => props::c12::run(&opts),
+        "C13" => props::c13::run(&opts),
+        "C15" => props::c15::run(&opts),
+        "C17" => props::c17::run(&opts),
         "C16" => props::sim::c16(&opts),
         "C18" => props::sim::c18(&opts),
         other => {
